@@ -199,7 +199,11 @@ def fieldStep (ra : St → Bag → Output.Arg → St × Bag × Except String RV)
   | (st', bag', .ok v) =>
     match obj with
     | .ref _ n => (updObj st' n fun o => if fl.name == "F1" then { o with f1 := some v } else { o with f2 := some v }, bag', errs)
-    | _ => (st', bag', errs ++ ["set field: not a settable object"])
+    | _ =>
+      -- a service that is nothing but a type (or whose value is no struct) holds no object a field could be set on: the runtime's
+      -- setter sees the boxed nil / value and refuses
+      (st', bag', errs ++ ["set field " ++ Val.quoteStr fl.name ++ ": set (*interface {})." ++ Val.quoteStr fl.name ++
+        ": expected pointer to struct, *interface {} given"])
 
 /-- one call; a wither replaces the current object -/
 def callStep (ras : St → Bag → List Output.Arg → St × Bag × Except String (List RV))
